@@ -899,6 +899,7 @@ def probe_pairs():
 
 
 NPROBES = 36
+assert NPROBES == len(probe_pairs())
 
 
 def probe_case(ctx, i, rng):
